@@ -782,7 +782,11 @@ def rule_vlq_field_reset(ctx):
                 acc.add(fld)
     shift -= acc
     if len(shift) != 1:
-        raise anchors.AnchorMissing('shift-position field of the VLQ reader: %s' % sorted(shift))
+        # conditional rule: the digit state may live in a type of its own (`VlqAccumulator { bits, shift }` with push / finish); then the
+        # roles are not fields of the decoder and the clause is not decided.  The seeded canaries (thorough tier) exclude vacuity today.
+        r.info('shift-position field of the VLQ reader not recognisable among the decoder\'s own fields (%s): not decided' % sorted(shift))
+        r.site('(decoder): digit state not recognisable', root.span(), 'ok')
+        return r
     S = next(iter(shift))
     # the field counter: a decoder field that indexes an array field of the decoder and is incremented by the constant 1
     for m in members:
@@ -813,7 +817,9 @@ def rule_vlq_field_reset(ctx):
             if used_as_index:
                 counter_incs.append((m, pt, s, fld))
     if not counter_incs:
-        raise anchors.AnchorMissing('no increment of the field counter found in the VLQ reader')
+        r.info('no increment of a field counter recognisable in the VLQ reader: not decided')
+        r.site('(decoder): field counter not recognisable', root.span(), 'ok')
+        return r
 
     def zero_guarded(m, pt, fld):
         """is pt dominated by the edge `fld == 0` of a test of the field (no write in between is checked by construction: the
